@@ -259,7 +259,15 @@ func threadedSucc(b *ssa.BasicBlock, ret *ssa.Return) int {
 			}
 			return ""
 		}
-		if ProvablyNonNil(r, func(ssa.Value) bool { return false }) {
+		if ProvablyNonNil(r, func(x ssa.Value) bool {
+			// a wrap of an error that was found non-nil on the way to this return
+			if _, isIface := x.Type().Underlying().(*types.Interface); !isIface || inThreading != 0 || x == r {
+				return false
+			}
+			inThreading++
+			defer func() { inThreading-- }()
+			return KnownNonNilAt(ret.Parent(), ret, x)
+		}) {
 			return "nonnil"
 		}
 		if _, isIface := r.Type().Underlying().(*types.Interface); isIface && inThreading == 0 {
@@ -855,4 +863,13 @@ func OriginsAt(fn *ssa.Function, site ssa.Instruction, v ssa.Value) []ssa.Value 
 		}
 	}
 	return out
+}
+
+// RetOrigins is Origins of result k of a return, minus the nil constants when
+// that result is known to be non-nil at the return (see OriginsAt).
+func RetOrigins(r *ssa.Return, k int) []ssa.Value {
+	if k < 0 || k >= len(r.Results) {
+		return nil
+	}
+	return OriginsAt(r.Parent(), r, r.Results[k])
 }
